@@ -164,7 +164,12 @@ def _strip_model(eng, args, st, left, right, name):
         if args[1].t.lit is None:
             raise Undecided('strip with symbolic character set')
         chars = args[1].t.lit[1]
-    r = eng.ctx.fresh(name, STR)
+    # the result is a FUNCTION of the text (one symbol per method and character set), so that the same call written
+    # in the code and in a specification denotes the same term; its defining facts are assumed where it is computed
+    import hashlib as _hl
+    fname = 'py_%s_%s' % (name, 'ws' if chars is WS_CHARS else _hl.sha1(chars.encode()).hexdigest()[:8])
+    eng.ctx.fun(fname, [STR], STR)
+    r = eng.ctx.app(fname, s.t)
     eng.trusted_used.add('builtin:str.%s (contract: maximal stripping of the given character set%s)'
                          % (name, '; whitespace = ASCII + \\x1c-\\x1f\\x85\\xa0' if chars is WS_CHARS else ''))
     n, m = Len(s.t), Len(r)
@@ -172,7 +177,8 @@ def _strip_model(eng, args, st, left, right, name):
     def in_set(ch):
         return Or(*[Eq(ch, StrV(c)) for c in chars])
     # s = pre ++ r ++ post with pre/post consisting only of strip characters
-    a = eng.ctx.fresh(name + '_off', INT)
+    eng.ctx.fun(fname + '_off', [STR], INT)
+    a = eng.ctx.app(fname + '_off', s.t)
     st.assume(And(Le(IntV(0), a), Le(Add(a, m), n), Eq(r, Substr(s.t, a, m))))
     if not left:
         st.assume(Eq(a, IntV(0)))
@@ -1082,6 +1088,17 @@ def m_re_split(eng, args, kwargs, st, node):
     return [(st.alloc(HList(seq, elem)), st)]
 
 
+def regex_sub_fn(pattern, repl, flags):
+    """re.sub(pattern, repl, s, flags=flags) as an uninterpreted function String -> String, one symbol per
+    (pattern, replacement, flags): code and specification meet on the same symbol exactly when they agree on all three."""
+    import hashlib
+    h = hashlib.sha1(('sub|%r|%r|%d' % (pattern, repl, int(flags))).encode()).hexdigest()[:10]
+    name = 're_sub_%s' % h
+    smt.CTX.fun(name, [STR], STR)
+    REGEX_PREDS[name] = ('sub', pattern, repl, int(flags))
+    return name
+
+
 @func(_re.sub)
 def m_re_sub(eng, args, kwargs, st, node):
     pat, repl, s = args[0], args[1], args[2]
@@ -1090,14 +1107,16 @@ def m_re_sub(eng, args, kwargs, st, node):
     okr, r = eng.concrete(repl, st)
     if not okr:
         raise Undecided('re.sub replacement not concrete', node)
+    if not isinstance(s, VStr):
+        raise Undecided('re.sub on %r' % (s,), node)
     name = REGEX_SUB.get((p, r, f))
-    if name is None:
-        eng.oblige('regex', 're.sub-pattern-known', st, FALSE, node,
-                   note='re.sub pattern %r repl %r flags %r is not what the specification pins' % (p, r, f))
-        raise Undecided('re.sub with unregistered pattern %r' % ((p, r, f),), node)
-    eng.trusted_used.add('stdlib:re.sub for pattern %r (uninterpreted S.%s)' % (p, name))
-    from . import specs_support
-    return [(specs_support.call_spec_by_name(eng, name, [s], st, node), st)]
+    if name is not None:
+        eng.trusted_used.add('stdlib:re.sub for pattern %r (uninterpreted S.%s)' % (p, name))
+        from . import specs_support
+        return [(specs_support.call_spec_by_name(eng, name, [s], st, node), st)]
+    fn = regex_sub_fn(p, r, f)
+    eng.trusted_used.add('stdlib:re.sub(%r, %r, flags=%d) as the uninterpreted function %s' % (p, r, f, fn))
+    return [(VStr(eng.ctx.app(fn, s.t)), st)]
 
 
 # --------------------------------------------------- io.StringIO (as used by TeeStringIO)
